@@ -46,6 +46,9 @@ structure Globals where
   lower : Str → Str                -- `str.lower`
   /-- `packaging.version.Version(s)` (not translated): the Version object, or `none` for InvalidVersion (Py/PrimC10b.lean) -/
   mkVersion : Str → Option PVal := fun _ => Option.none
+  /-- `d.as_html_tags(lib_prefix=lp, include_version=iv)` (HTMLDependency.as_html_tags is not translated): what the call
+      answers for the dependency object `d` is a parameter (Py/PrimC11.lean); by default nothing is known -/
+  asHtmlTagsC11 : PVal → PVal → PVal → PyM PVal := fun _ _ _ => Except.error PyErr.unsupported
 
 instance : Inhabited Globals :=
   ⟨{ HTML_ESCAPE_TABLE := .none, HTML_ATTRS_ESCAPE_TABLE := .none, VOID_TAG_NAMES := [],
